@@ -161,8 +161,9 @@ func (m *Model) PullPositions(ctx context.Context, ops ...resource.ReadOption) <
 
 			positions.Preset, _ = m.presetForValue(positions.States)
 
-			// projection and filtering
-			responseFilter.Filter(positions)
+			// projection and filtering, on a copy: positions holds the stored position messages and the model's own
+			// preset, which a filter applied in place would strip of the fields the subscriber did not ask for
+			positions = responseFilter.FilterClone(positions).(*traits.OpenClosePositions)
 			if eq(last, positions) {
 				continue
 			}
